@@ -1457,6 +1457,69 @@ func (w *world) resultCallP(e *env, paths []string, ltypes []types.Type, c *ast.
 	return true
 }
 
+// wholeDecodeCall: `p.A, p.B, …, err = decodeBody(data)` before any reader exists here: a library function that makes
+// its own reader over the input, reads into result variables and returns them together with the reader's verdict
+// (`return a, b, …, r.Error()`).  The result variables are bound to the fields; `err` then stands for the reader's error.
+func (w *world) wholeDecodeCall(e *env, lhs []ast.Expr, c *ast.CallExpr, out *decOut) bool {
+	if e.reader != nil || len(lhs) < 2 {
+		return false
+	}
+	errID, ok := unparen(lhs[len(lhs)-1]).(*ast.Ident)
+	if !ok || !types.Identical(e.info.TypeOf(errID), types.Universe.Lookup("error").Type()) {
+		return false
+	}
+	var paths []string
+	var ltypes []types.Type
+	for _, l := range lhs[:len(lhs)-1] {
+		p, ok := w.fieldPath(e, l)
+		if !ok {
+			return false
+		}
+		paths = append(paths, p)
+		ltypes = append(ltypes, e.info.TypeOf(l))
+	}
+	fd, ne, ok := w.bindCall(e, c)
+	if !ok || ne.reader != nil || len(fd.Body.List) < 2 || fd.Type.Results == nil {
+		return false
+	}
+	ret, ok := fd.Body.List[len(fd.Body.List)-1].(*ast.ReturnStmt)
+	if !ok || len(ret.Results) != len(lhs) {
+		return false
+	}
+	seen := map[types.Object]bool{}
+	for i, r := range ret.Results[:len(ret.Results)-1] {
+		id, ok := unparen(r).(*ast.Ident)
+		if !ok {
+			return false
+		}
+		o, isVar := ne.info.ObjectOf(id).(*types.Var)
+		if !isVar || seen[o] || !types.Identical(o.Type(), ltypes[i]) {
+			return false
+		}
+		if _, bound := ne.paths[o]; bound {
+			return false
+		}
+		seen[o] = true
+		ne.paths[o] = paths[i]
+	}
+	var tmp decOut
+	w.decStmts(ne, fd.Body.List[:len(fd.Body.List)-1], &tmp)
+	if ne.reader == nil || tmp.ret != "" || tmp.readerErrReturned || lostWrites(ne, tmp.ops, false) {
+		return false
+	}
+	if !w.isReaderCall(ne, ret.Results[len(ret.Results)-1], "Error") {
+		return false
+	}
+	for _, o := range tmp.ops {
+		if strings.HasPrefix(o, ".unsupported") {
+			return false
+		}
+	}
+	out.ops = append(out.ops, tmp.ops...)
+	e.locals[e.info.ObjectOf(errID)] = "READERERR"
+	return true
+}
+
 // boundDefine: `x := …` where x is a result variable already bound to a field (see resultCall)
 func (w *world) boundDefine(e *env, st *ast.AssignStmt) bool {
 	if st.Tok != token.DEFINE || len(st.Lhs) != 1 {
@@ -1711,6 +1774,10 @@ func (w *world) decStmt(e *env, s ast.Stmt, out *decOut) {
 			if c, ok := st.Rhs[0].(*ast.CallExpr); ok && w.resultCall(e, st.Lhs, c, out) {
 				return
 			}
+			// p.A, p.B, err = decodeBody(data)
+			if c, ok := st.Rhs[0].(*ast.CallExpr); ok && w.wholeDecodeCall(e, st.Lhs, c, out) {
+				return
+			}
 		}
 		// s.Options, parseErr = smgp.ParseOptions(b.Bytes())
 		if len(st.Lhs) == 2 && len(st.Rhs) == 1 && st.Tok == token.ASSIGN {
@@ -1805,6 +1872,10 @@ func (w *world) decStmt(e *env, s ast.Stmt, out *decOut) {
 				}
 				if e.locals[e.info.ObjectOf(id)] == "TERNARY" {
 					out.ret = ".readerOrParse"
+					return
+				}
+				if e.locals[e.info.ObjectOf(id)] == "READERERR" {
+					out.ret = ".readerErr"
 					return
 				}
 				if e.locals[e.info.ObjectOf(id)] == "PARSEERR" && out.readerErrReturned {
